@@ -408,6 +408,18 @@ def gen_operator_spec(rng, version=None, rv=None, force_n=None, perm=False):
         data = factor_prefix + bytes(rv.randrange(256) for _ in range(64 + 24 * len(ids)))
     else:
         k = rng.randint(1, 5)
+        # a delayed replication BEFORE the elements the bitmap refers to: the layout in front of the bitmap
+        # then differs from one data content to the next (and from subset to subset in the multi-subset
+        # variants), and the bitmap window may reach into the replicated part
+        lead = rng.random() < 0.35 and 31001 in b
+        if lead:
+            e0 = rng.choice(nums)
+            n = rv.choice([0, 1, 2, 3]) if force_n is None else force_n
+            ids += [101000, 31001, e0]
+            bits.add(n, b[31001][4])
+            for _ in range(n):
+                rnd(b[e0][4])
+            has_factor = True
         prefix = [rng.choice(nums + strs[:8] if rng.random() < 0.5 else nums) for _ in range(k)]
         if rng.random() < 0.5 and strs:
             prefix[rng.randrange(k)] = rng.choice(strs)
@@ -420,6 +432,10 @@ def gen_operator_spec(rng, version=None, rv=None, force_n=None, perm=False):
         if reuse:
             ids.append(236000)
         nb = rng.randint(1, k)
+        if lead and rng.random() < 0.4:
+            nb = k + 1                  # the window reaches the last replicated element (when there is one)
+            prefix = [e0] + prefix      # (only used below to pick plausible modifiers)
+            k += 1
         ids += [101000 + nb, 31031]
         bitmap = [rng.choice([0, 0, 1]) for _ in range(nb)]
         if all(bitmap):
